@@ -79,6 +79,13 @@ def run(ctx):
     ctx.add_samples(common_nt[len(common_nt) // 2:], 1)
     ctx.add_samples(unit_nt[len(unit_nt) // 2:], 1)
     verdicts = ctx.replay("scale", cases + aux, "replay of TLC-generated scale / common-scale / unit-class cases")
+    # the contract holds whatever was formatted before: the same cases again in a fresh process,
+    # binary class first and smallest magnitudes first (the first run starts with the decimal class)
+    def order(c):
+        cls = c.get("cls", "")
+        return (0 if cls == "bin" else 1, c.get("k", 0) if isinstance(c.get("k", 0), int) else 0, c.get("id", 0))
+    re = sorted([c for c in cases if c["kind"] in ("val", "common")], key=order)
+    verdicts += ctx.replay("scale", re, "the same cases in a fresh process, binary class and small magnitudes first")
     for v in verdicts:
         if not v.get("ok") and v.get("signature") in ("outside-model", "bad-case"):
             raise vlib.Infra("harness could not judge a case: %s" % (v,))
